@@ -13,7 +13,7 @@ conf = {
   "demo_with_change_rc": int(re.search(r"demo_with_rc=(\d+)", log).group(1)),
   "demo_without_change_rc": int(re.search(r"demo_without_rc=(\d+)", log).group(1)),
   "suite_summaries_with_change": re.findall(r"Summary.*", log),
-  "how": "tools/confirm_seed.sh in the agent's scratch worktree: cargo test -p <crate> --test <demo> with the change (must fail) and with the patch reversed (must pass); cargo nextest run -p <crate> with default features and (warp-core) with native_rule_bootstrap,trusted_runtime,host_test, demo excluded (only the known always-failing baseline test may fail); the patch is applied to /repo with git apply --check by tools/try_mutant.sh",
+  "how": "tools/confirm_seed.sh / tools/confirm_shared.sh in a scratch worktree at /repo HEAD: cargo test -p <crate> --test <demo> with the change (must fail) and with the patch reversed (must pass); cargo nextest run -p <crate> with default features and (warp-core) with native_rule_bootstrap,trusted_runtime,host_test, demo excluded (only the known always-failing baseline test may fail); the patch is applied to /repo with git apply --check by tools/try_mutant.sh",
 }
 out = {"breaks_property": meta.get("breaks_property") or meta.get("property"), "origin": "fresh sub-agent given only the property text and a scratch worktree",
        "summary": meta.get("summary"), "needs_to_manifest": meta.get("needs_to_manifest"), "files_changed": meta.get("files_changed"),
